@@ -139,7 +139,7 @@ def xp_cases(ctx, per_shape, prefix):
     exprs = xp_expressions(ctx, per_shape)
     for cls, s in exprs:
         # the element r for everything; one of the other contexts for a sample
-        cs = [contexts[0]] + ([ctx.rng.choice(contexts[1:])] if ctx.rng.random() < 0.25 else [])
+        cs = [contexts[0]] + ([ctx.rng.choice(contexts[1:])] if ctx.rng.random() < 0.25 else []) if not ctx.thorough else contexts
         for cn, cl in cs:
             cid = "%s%d" % (prefix, k)
             line = "%s|eval|D:%s|C:%d;%s|V:%s|N:%s|X:%s" % (cid, dtoks, cn, ",".join(map(str, cl)), vfield, base.NSF, xpgen.tok(s))
@@ -210,12 +210,56 @@ SUM_PATHS = ["*", "name", "a/b", "descendant::b", "a | name", "*[2]", "(name)", 
 EACH_PATHS = ["*", "descendant::b", "name", "a | name", "a/b", "."]
 
 
+def gen_sum_doc(r, base):
+    """<r> whose element children hold digit-bearing elements separated by whitespace-only text: with the
+       blanks stripped the string-value is a number ("12"), with them it is not ("1 2")"""
+    def leaf(name):
+        n = base.SNode("e", name)
+        t = base.SNode("t", text=r.choice(["1", "2", "7", "0", "5", ".5", "3"]))
+        t.parent = n
+        n.children = [t]
+        return n
+
+    def group(name):
+        n = base.SNode("e", name)
+        out = []
+        if r.random() < 0.4:
+            out.append(base.SNode("t", text=r.choice(base.WS)))
+        for i in range(r.randrange(1, 4)):
+            if i and r.random() < 0.85:
+                out.append(base.SNode("t", text=r.choice(base.WS)))
+            out.append(leaf(r.choice(["b", "b", "c"])))
+        if r.random() < 0.4:
+            out.append(base.SNode("t", text=r.choice(base.WS)))
+        for c in out:
+            c.parent = n
+        n.children = out
+        return n
+    root = base.SNode("e", "r")
+    out = [base.SNode("t", text="\n")]
+    for _ in range(r.randrange(2, 5)):
+        out.append(group(r.choice(["a", "name", "a"])) if r.random() < 0.8 else leaf("name"))
+        out.append(base.SNode("t", text=r.choice(base.WS)))
+    for c in out:
+        c.parent = root
+    root.children = out
+    k = [0]
+
+    def number(n):
+        n.order = k[0]
+        k[0] += 1
+        for c in n.children:
+            number(c)
+    number(root)
+    return root
+
+
 def strip_cases(ctx, n_docs):
     from props import C11 as base
     r = ctx.rng
     out = []
     for di in range(n_docs):
-        root = base.gen_ws_doc(r)
+        root = gen_sum_doc(r, base) if di % 2 == 0 else base.gen_ws_doc(r)
         src = base.ws_xml(root)
         strip, preserve = base.STRIP_DECLS[di % len(base.STRIP_DECLS)]
         decl = ""
@@ -255,6 +299,9 @@ def run_strip(ctx, cases):
             total = total + xpref.str_to_num(ref.sv(n))
         if any(base.is_ws(t.text) and ref.stripped(t) for n in sel for t in base.all_text(n)):
             ctx.count("helpers:strip:summed-node-holds-stripped-text")
+        plain = base.StripRef(c["root"], [], [])
+        if any(not base.same_num(xpref.str_to_num(ref.sv(n)), xpref.str_to_num(plain.sv(n))) for n in sel):
+            ctx.count("helpers:strip:sum-differs-without-stripping")
         g = lambda el, tag: base.text_of(el.find(tag))
 
         def numeric(what, got, x):
@@ -318,11 +365,11 @@ def run_part(ctx):
     if not ok_h:
         ctx.broken.append("helpers: harness does not compile against the working tree: " + hlog[-500:])
         return
-    per_shape = 14 if not ctx.thorough else 160
+    per_shape = 24 if not ctx.thorough else 700
     cases = xp_cases(ctx, per_shape, "h")
     ctx.cov["samples"] = (ctx.cov.get("samples") or []) + [c["str"] for c in cases[:6]]
     bad = run_xp(ctx, impl, cases)
-    sbad = run_strip(ctx, strip_cases(ctx, 18 if not ctx.thorough else 240))
+    sbad = run_strip(ctx, strip_cases(ctx, 30 if not ctx.thorough else 600))
     if not proved and not bad and not sbad and not ctx.thorough:
         ctx.escalated = True
         bad += run_xp(ctx, impl, xp_cases(ctx, 120, "hy"))
